@@ -66,7 +66,12 @@ func (a Any) semanticTokensForIndexExpr(ctx context.Context) ([]lang.SemanticTok
 		cons := schema.AnyExpression{
 			OfType: cty.String, // TODO improve type (see above)
 		}
-		return newExpression(a.pathCtx, eType.Key, cons).SemanticTokens(ctx), true
+		collCons := schema.AnyExpression{
+			OfType: cty.DynamicPseudoType,
+		}
+		tokens := newExpression(a.pathCtx, eType.Collection, collCons).SemanticTokens(ctx)
+		tokens = append(tokens, newExpression(a.pathCtx, eType.Key, cons).SemanticTokens(ctx)...)
+		return tokens, true
 	}
 
 	return nil, false
